@@ -1622,6 +1622,9 @@ def _close_elem(atol, rtol):
 
 def isclose(a, b, rtol=1e-5, atol=1e-8):
     a, b = _t(a), _t(b)
+    if (a.dtype.kind == "c") != (b.dtype.kind == "c"):
+        # torch.isclose / torch.allclose require equal dtypes ("ComplexDouble did not match Double")
+        raise RuntimeError(f"{a.dtype} did not match {b.dtype}")
     r = _close_elem(atol, rtol)(_num(a), _num(b))
     return Tensor(r if isinstance(r, np.ndarray) else _oa(r), bool)._tidy_bool()
 
@@ -1674,13 +1677,15 @@ def einsum(*a, **k):
 # --------------------------------------------------------------------------
 # sparse
 # --------------------------------------------------------------------------
-class SparseTensor:
+class SparseTensor(Tensor):
+    # a torch sparse tensor *is* a torch.Tensor (`isinstance(x, torch.Tensor)` in emu_sv/sparse_operator.py);
+    # the dense-only methods inherited from Tensor fail loudly (no `.a`) instead of being silently wrong
     __array_ufunc__ = None
 
     def __init__(self, indices, values, shape, dtype_, coalesced=False, layout="coo"):
         self.idx = np.asarray(indices, dtype=np.int64).reshape(2, -1)
         self.vals = values
-        self.shape = Size(_pyint(s) for s in shape)
+        self._shape = Size(_pyint(s) for s in shape)
         self.dtype = dtype_
         self.coalesced = coalesced
         self.layout_ = layout
@@ -1689,6 +1694,20 @@ class SparseTensor:
     is_cpu = True
     is_sparse = True
     device = _CPU
+
+    @property
+    def shape(self):
+        return self._shape
+
+    def size(self, dim=None):
+        return self._shape if dim is None else self._shape[dim]
+
+    @property
+    def layout(self):
+        return "sparse_" + self.layout_
+
+    def _nnz(self):
+        return _pyint(self.idx.shape[1])
 
     def coalesce(self):
         acc: dict = {}
@@ -1797,7 +1816,9 @@ def sparse_coo_tensor(indices, values, size=None, dtype=None, device=None, is_co
     vdt = vt.dtype if vt.dtype.kind in "fc" else float64
     if size is None:
         size = tuple(_pyint(x) + 1 for x in idx.max(axis=1))
-    return SparseTensor(idx, np.asarray(vals, dtype=object).copy(), size, dtype or vdt, _pybool(is_coalesced))
+    idx = idx.reshape(2, -1)
+    # torch flags a freshly built COO tensor with fewer than two entries as coalesced
+    return SparseTensor(idx, np.asarray(vals, dtype=object).copy(), size, dtype or vdt, _pybool(is_coalesced) or idx.shape[1] < 2)
 
 
 # --------------------------------------------------------------------------
